@@ -57,6 +57,12 @@ mod sys {
         )) {
             None
         } else {
+            #[cfg(jiff_verif)]
+            {
+                return std::time::Instant::now()
+                    .checked_add(crate::__verif::monotonic_offset());
+            }
+            #[allow(unreachable_code)]
             Some(std::time::Instant::now())
         }
     }
